@@ -41,6 +41,29 @@ def splitL (short keepTail : List β → Bool) (obs : List (β × Bool)) : List 
   let (acc, cur, started) := goL short obs [] [] false
   if started then (if keepTail cur then acc ++ [cur] else acc) else acc
 
+/-! ### the same loop with the numbers that go into the pieces' uids
+
+`new_id = str(track.uid) + "." + str(count) + "." + str(begin) + "." + str(i)` (closing piece: `… + str(track.size()-1)`);
+`count` is incremented only for a piece that is added. `findStopsLocal` reads the last two fields back as the indices
+of the first and last observation of the piece. Here the loop is written with `i`, `begin`, `count` as in the code,
+and the closing test is the code's `begin != 0`. -/
+
+/-- (`count`, `begin`, `i`) of a piece -/
+abbrev PId := Nat × Nat × Nat
+
+def goU (short : List β → Bool) :
+    List (β × Bool) → Nat → Nat → Nat → List β → List (PId × List β) → List (PId × List β) × List β × Nat × Nat
+  | [], _, begin, count, cur, acc => (acc, cur, begin, count)
+  | (o, m) :: rest, i, begin, count, cur, acc =>
+    if m then
+      if short (cur ++ [o]) then goU short rest (i + 1) (i + 1) count [] acc
+      else goU short rest (i + 1) (i + 1) (count + 1) [] (acc ++ [((count, begin, i), cur ++ [o])])
+    else goU short rest (i + 1) begin count (cur ++ [o]) acc
+
+def splitU (short keepTail : List β → Bool) (obs : List (β × Bool)) : List (PId × List β) :=
+  let (acc, cur, begin, count) := goU short obs 0 0 0 [] []
+  if begin ≠ 0 then (if keepTail cur then acc ++ [((count, begin, obs.length - 1), cur)] else acc) else acc
+
 section limit
 variable {α : Type} [LT α] [LE α] [DecidableLT α] [DecidableLE α] [BEq α] [OfNat α 0]
 
